@@ -1581,6 +1581,56 @@ func (c *Ctx) checkLastWriter(rule string, m *core.Module, l *mapLoop, base, pos
 					startsUnset = false
 				}
 			}
+			// isSetFlag: a bool carried round the loop that is false on entry and, inside the loop, only ever set to true in a
+			// block that also writes the variable
+			isSetFlag := func(fl *ssa.Phi) bool {
+				ok := true
+				seen := map[*ssa.Phi]bool{}
+				var walk func(q *ssa.Phi)
+				walk = func(q *ssa.Phi) {
+					if seen[q] {
+						return
+					}
+					seen[q] = true
+					for i, e := range q.Edges {
+						pred := q.Block().Preds[i]
+						if q == fl && !l.blocks[pred] {
+							if cst, isC := e.(*ssa.Const); !isC || cst.Value == nil || cst.Value.Kind() != constant.Bool || constant.BoolVal(cst.Value) {
+								ok = false
+							}
+							continue
+						}
+						switch x := e.(type) {
+						case *ssa.Phi:
+							if l.blocks[x.Block()] {
+								walk(x)
+							} else {
+								ok = false
+							}
+						case *ssa.Const:
+							if x.Value == nil || x.Value.Kind() != constant.Bool || !constant.BoolVal(x.Value) {
+								ok = false
+								break
+							}
+							writes := false
+							for _, w2 := range writers {
+								if w2.from == pred {
+									if _, isC := w2.v.(*ssa.Const); !isC {
+										writes = true
+									}
+								}
+							}
+							if !writes {
+								ok = false
+							}
+						default:
+							ok = false
+						}
+					}
+				}
+				walk(fl)
+				return ok
+			}
 			usedOrd, usedUnset, usedEq := false, false, false
 			est := func(cond core.Cond) bool {
 				ifb := condBlock(cond)
@@ -1590,6 +1640,22 @@ func (c *Ctx) checkLastWriter(rule string, m *core.Module, l *mapLoop, base, pos
 				if isOrd(cond.V) {
 					usedOrd = true
 					return true
+				}
+				// `found` kept beside the variable: a loop-carried flag that is false on entry and set only where the variable is
+				// written says the same as "the variable is still unset"
+				if fl, isPhi := cond.V.(*ssa.Phi); isPhi && !cond.True && fl != phi && fl.Block() == l.header && isSetFlag(fl) {
+					other := ifb.Succs[0]
+					leaves := other != l.header && !blockReaches(other, l.header, nil)
+					toOrd := false
+					if len(other.Instrs) > 0 {
+						if ifi, ok := other.Instrs[len(other.Instrs)-1].(*ssa.If); ok && isOrd(ifi.Cond) {
+							toOrd = true
+						}
+					}
+					if leaves || toOrd {
+						usedUnset = true
+						return true
+					}
 				}
 				if x, neq, ok := unsetCmp(cond.V); ok && startsUnset && derived(x) && cond.True != neq {
 					// the variable is unset on this edge; the already-set edge must leave the loop (duplicates rejected)
